@@ -20,7 +20,14 @@ func defaultFail(r *ssa.Return) bool { return returnKind(r) == RetError }
 
 // errorDirected: block s (entered only through this edge) fails.
 func errorDirected(s *ssa.BasicBlock, fail failPred, depth int) bool {
-	if len(s.Preds) != 1 || depth > 4 || len(s.Instrs) == 0 {
+	if depth > 4 || len(s.Instrs) == 0 {
+		return false
+	}
+	// a block that unconditionally fails is error-directed however it is entered (a || b → error)
+	if r, ok := s.Instrs[len(s.Instrs)-1].(*ssa.Return); ok {
+		return fail(r)
+	}
+	if len(s.Preds) != 1 {
 		return false
 	}
 	switch t := s.Instrs[len(s.Instrs)-1].(type) {
